@@ -634,7 +634,11 @@ def t_kron(args, kw, node):
 
 
 def t_inv(args, kw, node):
-    return inv(args[0], "matrix inverse", node)
+    a = args[0]
+    if isinstance(a, Lst):
+        # batched inverse over the first axis: block by block
+        return Lst([inv(i, "matrix inverse", node) for i in a.items], inv(a.tail, "matrix inverse", node) if a.tail is not None else None)
+    return inv(a, "matrix inverse", node)
 
 
 def t_solve(args, kw, node):
@@ -923,6 +927,12 @@ def t_expand(args, kw, node):
 
 def t_stack(args, kw, node):
     a = args[0]
+    if isinstance(a, Lst) and node_name(node) in ("stack", "array", "asarray") and len(args) == 1 and (kw.get("axis") is None or (isinstance(kw.get("axis"), Cst) and kw["axis"].v == 0)):
+        its = [num(i) for i in list(a.items) + ([a.tail] if a.tail is not None else [])]
+        if len(its) > 1 and all(isinstance(i, Deg) for i in its) and len({frozenset(i.sup) for i in its}) > 1:
+            # a batch of blocks of DIFFERENT degree along a new first axis (one block per setup): kept as the list it was built from, so that
+            # batched operations (inverse) and the iteration over the first axis stay per block instead of mixing the blocks
+            return Lst(list(a.items), a.tail)
     v = num(a)
     if isinstance(a, (Lst, Tup)):
         its = list(a.items) + ([a.tail] if isinstance(a, Lst) and a.tail is not None else [])
